@@ -1,4 +1,81 @@
-From Coq Require Import ZArith List Bool.
-From PW Require Import Model.Base Model.Formats.
-Theorem C04_placeholder : True. Proof. exact I. Qed.
-Print Assumptions C04_placeholder.
+(* C04 — Trust anchors are enforced for attestation certificate chains. *)
+From Coq Require Import ZArith List Bool String.
+From PW Require Import Model.Base Model.Utf8 Model.Cbor Model.AuthData Model.Oracles Model.Formats Model.VerifyReg
+  Generated.Constants Spec.FormatSpec Spec.ChainSpec Proofs.ChainProofs.
+Import ListNotations.
+Open Scope Z_scope.
+
+(* anchors in force for a format = RP roots configured for THAT format ++ the built-in roots of that format *)
+(* with anchors in force, an accepted chain was handed to the validator at the clock of the call, is non-empty,
+   and the validator (OpenSSL: oracle) said yes *)
+Theorem C04_validator_consulted : forall O now x5c roots, roots <> [] -> validate_chain O now x5c roots = Ok tt ->
+  x5c <> [] /\ o_chain O now x5c roots = ChainOk.
+Proof. exact validate_chain_anchored. Qed.
+Print Assumptions C04_validator_consulted.
+
+(* documented pass-through: with no anchors in force the chain is not checked *)
+Theorem C04_passthrough : forall O now x5c, validate_chain O now x5c [] = Ok tt.
+Proof. exact validate_chain_passthrough. Qed.
+Print Assumptions C04_passthrough.
+
+(* per format: which chain is validated against which anchors *)
+Theorem C04_packed : forall O P st adr cdj ad att,
+  verify_statement O P (s2l "packed") st adr cdj ad att = Ok tt -> unset (st_x5c st) = false ->
+  exists x5c, x5c_list (fld (st_x5c st)) = Ok x5c /\ validate_chain O (rp_now P) x5c (anchors_in_force P (s2l "packed")) = Ok tt.
+Proof. exact packed_chain_checked. Qed.
+Print Assumptions C04_packed.
+Theorem C04_tpm : forall O P st adr cdj ad att, verify_statement O P (s2l "tpm") st adr cdj ad att = Ok tt ->
+  exists x5c, x5c_list (fld (st_x5c st)) = Ok x5c /\ validate_chain O (rp_now P) x5c (anchors_in_force P (s2l "tpm")) = Ok tt.
+Proof. exact tpm_chain_checked. Qed.
+Print Assumptions C04_tpm.
+Theorem C04_fido_u2f : forall O P st adr cdj ad att, verify_statement O P (s2l "fido-u2f") st adr cdj ad att = Ok tt ->
+  exists der, x5c_list (fld (st_x5c st)) = Ok [der] /\ validate_chain O (rp_now P) [der] (anchors_in_force P (s2l "fido-u2f")) = Ok tt.
+Proof. exact u2f_chain_checked. Qed.
+Print Assumptions C04_fido_u2f.
+Theorem C04_apple : forall O P st adr cdj ad att, verify_statement O P (s2l "apple") st adr cdj ad att = Ok tt ->
+  exists x5c, x5c_list (fld (st_x5c st)) = Ok x5c /\ validate_chain O (rp_now P) x5c (anchors_in_force P (s2l "apple")) = Ok tt.
+Proof. exact apple_chain_checked. Qed.
+Print Assumptions C04_apple.
+Theorem C04_android_safetynet : forall O P st adr cdj ad att, verify_statement O P (s2l "android-safetynet") st adr cdj ad att = Ok tt ->
+  exists x5c, x5c <> [] /\ validate_chain O (rp_now P) x5c (anchors_in_force P (s2l "android-safetynet")) = Ok tt.
+Proof. exact safetynet_chain_checked. Qed.
+Print Assumptions C04_android_safetynet.
+(* android-key: the chain x5c[:-1] is validated against x5c[-1], and that root must be (byte-)equal to an anchor in force *)
+Theorem C04_android_key : forall O P st adr cdj ad att, verify_statement O P (s2l "android-key") st adr cdj ad att = Ok tt ->
+  exists x5c rootc, x5c_list (fld (st_x5c st)) = Ok x5c /\ load_cert O (last_bytes x5c) = Ok rootc /\
+    validate_chain O (rp_now P) (removelast x5c) [c_pem rootc] = Ok tt /\ In (c_pem rootc) (anchors_in_force P (s2l "android-key")).
+Proof. exact android_key_root_known. Qed.
+Print Assumptions C04_android_key.
+
+(* roots supplied for one format are never used for another: the verdict depends on the roots mapping only
+   through the entry of the response's own format *)
+Theorem C04_isolation : forall O P P' fmt st adr cdj ad att,
+  roots_for (rp_roots P) fmt = roots_for (rp_roots P') fmt ->
+  rp_builtin_apple P = rp_builtin_apple P' -> rp_builtin_android_key P = rp_builtin_android_key P' ->
+  rp_builtin_safetynet P = rp_builtin_safetynet P' -> rp_now P = rp_now P' ->
+  verify_statement O P fmt st adr cdj ad att = verify_statement O P' fmt st adr cdj ad att.
+Proof. exact statement_isolation. Qed.
+Print Assumptions C04_isolation.
+Theorem C04_other_format_entries_ignored : forall k v l fmt kb, utf8_encode k = Some kb -> kb <> fmt ->
+  roots_for ((k, v) :: l) fmt = roots_for l fmt.
+Proof. exact roots_for_skip. Qed.
+Print Assumptions C04_other_format_entries_ignored.
+
+(* under the stated hypothesis that OpenSSL accepts only chains acceptable in the sense of Spec.ChainSpec
+   (every certificate inside its validity period, each issued - name and signature - by the next, issuers CA-capable,
+   ending in a configured anchor), an accepted chain with anchors in force is such a chain *)
+Theorem C04_valid_path_under_openssl_spec : forall O view_der view_pem,
+  (forall now x5c roots, o_chain O now x5c roots = ChainOk ->
+     exists xs rs, views view_der x5c = Some xs /\ views view_pem roots = Some rs /\ ChainAcceptable now xs rs) ->
+  forall now x5c roots, roots <> [] -> validate_chain O now x5c roots = Ok tt ->
+  exists xs rs, views view_der x5c = Some xs /\ views view_pem roots = Some rs /\ ChainAcceptable now xs rs.
+Proof. exact anchored_chain_is_valid_path. Qed.
+Print Assumptions C04_valid_path_under_openssl_spec.
+
+(* the built-in anchors of the code are the genuine ones (ids = first 8 bytes of SHA-256 of the PEM constants, regenerated) *)
+Theorem C04_builtin_anchor_ids :
+  builtin_roots_apple = [13144670451880268595] /\
+  builtin_roots_android_key = [15779911978602591513; 10626200631456487863; 14276665956202281360; 2720424354486300475] /\
+  builtin_roots_safetynet = [12569499210198843918; 16098262113507081481].
+Proof. vm_compute. repeat split. Qed.
+Print Assumptions C04_builtin_anchor_ids.
